@@ -613,75 +613,11 @@ fn and_all(v: &[&Expr]) -> Option<Expr> {
     Some(acc)
 }
 
-/// the recorded root causes a query runs into (empty = none); see known_findings.d/C19.json
-pub fn dangers(q: &Query, db: &[Table]) -> Vec<&'static str> {
-    let mut out = vec![];
-    let leaf = leaf_of_cols(&q.from, db);
-    let filt0 = q.wh.as_ref().and_then(effective_filter);
+/// the recorded OPEN root causes a query runs into (empty = none); see known_findings.d/C19.json.
+/// Classes 1-8 and 10 are repaired in /repo; what is left is class 9: a join whose input is a join.
+pub fn dangers(q: &Query, _db: &[Table]) -> Vec<&'static str> {
     match &q.from {
-        From::Tab(_) => {
-            // (the projection fast-path defect, finding class 1, is repaired in /repo: no tag)
-            let _ = &filt0;
-        }
-        From::Join(k, l, r, on) => {
-            if q.star { out.push("star"); }
-            if q.items.iter().any(|e| !matches!(e, Expr::Col(_))) { out.push("expritem"); }
-            if !matches!((&**l, &**r), (From::Tab(_), From::Tab(_))) { out.push("three"); return out; }
-            let (lbit, rbit) = (1u32, 2u32);
-            // JoinConditionExtraction: cross join + WHERE -> inner join on the two-sided column equalities
-            let (cond, filt): (Option<Expr>, Option<Expr>) = match k {
-                JKind::Cross => match &filt0 {
-                    None => (None, None),
-                    Some(p) => {
-                        let conj = flatten_and(p);
-                        let (eq, rest): (Vec<&Expr>, Vec<&Expr>) = conj.iter().partition(|c| col_col_eq(c).map(|(i, j)| leaf[i] != leaf[j]).unwrap_or(false));
-                        if eq.is_empty() { (None, Some(p.clone())) } else { (and_all(&eq), and_all(&rest)) }
-                    }
-                },
-                _ => (Some(on.clone()), filt0.clone()),
-            };
-            let pushed = match &filt { None => 0, Some(f) => { let v = vis_tables(f, &leaf); if v == lbit { lbit } else if v == rbit { rbit } else { 0 } } };
-            if let Some(f) = &filt { if pushed != 0 && all_tables(f, &leaf) & !pushed != 0 { out.push("push_blind"); } }
-            if pushed == rbit && cond.is_some() && matches!(k, JKind::Cross | JKind::Inner) { out.push("push_right_cond"); }
-            match k {
-                JKind::Left => if filt.is_some() && pushed != lbit { out.push("outer_where"); },
-                JKind::Right => if filt.is_some() && pushed != rbit { out.push("outer_where"); },
-                JKind::Full => if filt.is_some() { out.push("outer_where"); },
-                _ => {}
-            }
-            if matches!(k, JKind::Right | JKind::Full) && !q.star {
-                // unmatched right rows are projected by output column NAME and occurrence
-                let mut l2 = vec![]; q.from.leaves(&mut l2);
-                let mut starts = vec![]; let mut pos = 0; for ti in &l2 { starts.push(pos); pos += db[*ti].cols.len(); }
-                let name_of = |c: usize| c - starts[leaf[c]];          // position inside its table = its name
-                let mut ok = true;
-                for (j, e) in q.items.iter().enumerate() {
-                    if let Expr::Col(c) = e {
-                        let occ = q.items[..j].iter().filter(|x| if let Expr::Col(d) = x { name_of(*d) == name_of(*c) } else { false }).count();
-                        // the occ-th concatenated column with that name
-                        let cand: Vec<usize> = (0..leaf.len()).filter(|d| name_of(*d) == name_of(*c)).collect();
-                        if cand.get(occ) != Some(c) { ok = false; }
-                    }
-                }
-                if !ok { out.push("right_names"); }
-            }
-            if let Some(c) = &cond {
-                let conj = flatten_and(c);
-                let keys: Vec<(usize, usize)> = conj.iter().filter_map(|x| col_col_eq(x)).collect();
-                if !keys.is_empty() && (keys.len() < conj.len() || keys.iter().any(|(i, j)| leaf[*i] == leaf[*j])) { out.push("on_residual"); }
-                // hash join keys: -0.0 against 0.0 / integer 0
-                if let (From::Tab(lt), From::Tab(rt)) = (&**l, &**r) {
-                    let wl = db[*lt].cols.len();
-                    let zero_kind = |v: &Val| match v { Val::Float(b) if *b == 1u64 << 63 => 2, Val::Float(0) | Val::Int(0) => 1, _ => 0 };
-                    let has = |t: &Table, c: usize, k: i32| t.rows.iter().any(|r| r.get(c).map(|v| zero_kind(v) == k).unwrap_or(false));
-                    for (i, j) in &keys {
-                        if leaf[*i] == leaf[*j] { continue; }
-                        let (a, b) = if *i < wl { (*i, *j - wl) } else { (*j, *i - wl) };
-                        if (has(&db[*lt], a, 2) && has(&db[*rt], b, 1)) || (has(&db[*lt], a, 1) && has(&db[*rt], b, 2)) { out.push("negzero_key"); break; }
-                    }
-                }
-            }
-        }
+        From::Join(_, l, r, _) if !matches!((&**l, &**r), (From::Tab(_), From::Tab(_))) => vec!["three"],
+        _ => vec![],
     }
-    out
 }
